@@ -96,4 +96,4 @@ META = dict(
     technique="runtime monitoring: generator-derived expected sequence + independent reader + skip-boundary oracle + ASan",
 )
 
-CFG["rule"] += (" " + "Additions: 'long' programs of 300-2700 tiny items nearly all skipped in-stream with one decoder; a third of the tag numbers are registered ones (incl. 55799); every 2048th case writes strings of 33-70 MiB into one encoder; stages mt_tsan/mt_rel (several threads, digest compared with the single-threaded run); stale aws_last_error()/errno.")
+CFG["rule"] += (" " + "Additions: 'long' programs of 300-2700 tiny items nearly all skipped in-stream with one decoder; a third of the tag numbers are registered ones (incl. 55799); every 2048th case writes strings of 33-70 MiB into one encoder; stages mt_tsan/mt_rel (several threads, digest compared with the single-threaded run); stale aws_last_error()/errno. A ninth of the boundary doubles have a significand of at most 24 bits at exponents around both ends of the float range (2^-152..2^-125, 2^126..2^128).")
